@@ -66,6 +66,8 @@ pub fn qsieve(
     let mut target = fbase.len() * 8 / 10;
 
     let maxlarge: u64 = fbase.bound() as u64 * prefs.large_factor.unwrap_or(large_prime_factor(&n));
+    // Don't allow maxlarge to exceed 32 bits: large primes are stored as u32.
+    let maxlarge = min(maxlarge, (1 << 32) - 1);
     let qs = SieveQS::new(n, &fbase, maxlarge, use_double);
     if prefs.verbose(Verbosity::Info) {
         let maxprime = fbase.bound() as u64;
